@@ -223,7 +223,7 @@ pub fn judge(_part: &str, case: &Case, tally: &mut Tally) -> Verdict {
     }
 }
 
-fn gen_case(src: &mut Src, _i: usize) -> Case {
+pub fn gen_case(src: &mut Src, _i: usize) -> Case {
     let (cols, rows) = gen::small_size(src);
     let rows = if src.chance(2, 3) { rows.max(3) } else { rows };
     let mut g = G::new(cols, rows).no_ris();
